@@ -71,20 +71,24 @@ type HeldView struct {
 type World struct {
 	Dir                                           string
 	PcapDir, IndexDir, SnapDir, StateDir, ConvDir string
-	Staging                                       string
-	Mgr                                           *manager.Manager
-	mu                                            sync.Mutex
-	cond                                          *sync.Cond
-	parked                                        map[string]*Job // by kind
-	jobSeq                                        int
-	appliedCount                                  map[string]int
-	Applied                                       []string // log of applied notifications (kind + args digest)
-	Views                                         []*HeldView
-	Events                                        []string
-	ImportedApplied                               [][]string // file lists of applied imports, in order
-	closed                                        bool
-	Errors                                        []string // harness-level problems
-	ConverterBin                                  string
+	// Listeners: closers of event streams the client program opened and does not read
+	Listeners map[string]func()
+	// Wedged: an API call did not return; nothing that waits for the service loop is done with this instance any more
+	Wedged          bool
+	Staging         string
+	Mgr             *manager.Manager
+	mu              sync.Mutex
+	cond            *sync.Cond
+	parked          map[string]*Job // by kind
+	jobSeq          int
+	appliedCount    map[string]int
+	Applied         []string // log of applied notifications (kind + args digest)
+	Views           []*HeldView
+	Events          []string
+	ImportedApplied [][]string // file lists of applied imports, in order
+	closed          bool
+	Errors          []string // harness-level problems
+	ConverterBin    string
 	// InputChanges: a job parked at its begin point found, when released, that what it had been handed
 	// differs from what it was handed - some other goroutine wrote to memory the job reads
 	InputChanges []string
@@ -649,6 +653,21 @@ func (w *World) stop() {
 	w.parked = map[string]*Job{}
 	w.mu.Unlock()
 	mgr := w.Mgr
+	if w.Wedged {
+		// the service loop of this instance does not answer: the instance is left behind
+		retired.Store(mgr, true)
+		worlds.Delete(mgr)
+		return
+	}
+	// clients that still hold an event stream go away now; the service forgets a listener only after the deliveries
+	// that were waiting for it have given up, and its Close must not run before that
+	for name, closer := range w.Listeners {
+		delete(w.Listeners, name)
+		closer()
+	}
+	for i := 0; i < 5000 && mgr.VerifListenerCount() != 0; i++ {
+		time.Sleep(time.Millisecond)
+	}
 	for _, v := range w.Views {
 		if !v.Released {
 			v.View.Release()
